@@ -9,12 +9,13 @@ import re
 
 from . import common
 
-PROOFS = ["proofs/AntsProofs.v", "models/Ants.v"]
+PROOFS = ["proofs/AntsProofs.v", "proofs/AntsCancelProofs.v", "models/Ants.v"]
 MS = 1000000
 
 TRUSTED = [
     "modelled, not verified: Go channel semantics (FIFO buffer, FIFO blocked senders, hand-off = append + receiver step), "
-    "sync.WaitGroup, context.WithTimeout (ctx1.Done() closed at the deadline), select choosing any ready case",
+    "sync.WaitGroup, context.WithTimeout (ctx1.Done() closed at the deadline or when the parent context is cancelled, whichever is first; "
+    "Deadline() still reports creation + T), select choosing any ready case",
     "modelled: the dispatcher's 'store result/err, test err == nil, retry or onError, wg.Done' after its select is one model step "
     "(exact for the per-attempt-channel code: nobody else accesses result/err before wg.Done)",
     "faketime runtime (virtual clock advances only when every goroutine is blocked); cmd/ftants log; python log->history conversion "
@@ -35,32 +36,46 @@ FT_ENV = dict(os.environ, GOMAXPROCS="2")
 
 # ---------------------------------------------------------------- scripts
 class Task:
-    def __init__(self, send, T, R, discard, onerr, behs):
+    def __init__(self, send, T, R, discard, onerr, behs, cancels=None):
         self.send, self.T, self.R, self.discard, self.onerr, self.behs = send, T, R, discard, onerr, behs
+        # cancels[i]: the handler of behaviour i cancels the dispatchers' parent context right before it returns
+        self.cancels = list(cancels) if cancels else [False] * len(behs)
 
     def tok(self):
         return "%d,%d,%d,%d,%d|" % (self.send, self.T, self.R, int(self.discard), int(self.onerr)) + \
-               "|".join("%d:%d:%d:%d" % (d, int(h), v, e) for d, h, v, e in self.behs)
+               "|".join("%d:%d:%d:%d" % (d, int(h), v, e) + (":1" if c else "") for (d, h, v, e), c in zip(self.behs, self.cancels))
 
     def prompt(self):
         """returns promptly once its context is cancelled: every behaviour honours ctx"""
         return all(h for _, h, _, _ in self.behs)
 
 
+class TaskList(list):
+    """the tasks of a script; pc: None = pool built without WithContextBuilder, t >= 0 = pool built with one shared
+    cancellable parent context that the script cancels at t, -1 = such a pool, never cancelled by the script"""
+    pc = None
+
+
 def parse_script(line):
     t = line.split()
     assert t[0] == "ants"
-    tasks = []
-    for tok in t[2:]:
+    tasks = TaskList()
+    rest = t[2:]
+    if rest and rest[0].startswith("pc="):
+        tasks.pc = int(rest[0][3:])
+        rest = rest[1:]
+    for tok in rest:
         parts = tok.split("|")
         h = [int(x) for x in parts[0].split(",")]
         behs = [tuple(int(x) for x in b.split(":")) for b in parts[1:]]
-        tasks.append(Task(h[0], h[1], h[2], h[3] == 1, h[4] == 1, [(d, hh == 1, v, e) for d, hh, v, e in behs]))
+        tasks.append(Task(h[0], h[1], h[2], h[3] == 1, h[4] == 1, [(b[0], b[1] == 1, b[2], b[3]) for b in behs],
+                          [len(b) == 5 and b[4] == 1 for b in behs]))
     return int(t[1]), tasks
 
 
 def script_line(N, tasks):
-    return "ants %d %s" % (N, " ".join(t.tok() for t in tasks))
+    pc = getattr(tasks, "pc", None)
+    return "ants %d %s%s" % (N, "" if pc is None else "pc=%d " % pc, " ".join(t.tok() for t in tasks))
 
 
 # ---------------------------------------------------------------- log
@@ -84,6 +99,7 @@ class Obs:
         self.G = {}
         self.GG = {}
         self.hang = []
+        self.PC = []                               # parent-context cancellations: dict(t,k,n,idx), logged before cancel() is called
         self.end = None
         self.runs = []                             # (idx, t, run) samples of the running counter
         for idx, p in enumerate(parts[1:]):
@@ -107,12 +123,23 @@ class Obs:
                 self.GG[int(f[1])] = dict(t=int(f[2]), v=f[3], e=f[4], idx=idx)
             elif kind == "HANG":
                 self.hang.append(int(f[1]))
+            elif kind == "PC":
+                self.PC.append(dict(t=int(f[1]), k=int(f[2]), n=int(f[3]), idx=idx))
             elif kind == "END":
                 self.end = dict(t=int(f[1]), run=int(f[2]), hs=int(f[3]), he=int(f[4]))
         self.ok = self.end is not None
 
     def discarded(self, k):
         return k in self.G and self.G[k]["e"] == "DISC"
+
+    def cancel(self):
+        """the first cancellation of the dispatchers' parent context (dict t,k,n,idx) or None"""
+        return self.PC[0] if self.PC else None
+
+    def done_at(self, h):
+        """instant at which the context of handler invocation h is done: its deadline or the parent's cancellation"""
+        q = self.cancel()
+        return min(h["dl"], q["t"]) if q else h["dl"]
 
     def attempts(self, k):
         """handler invocations of task k ordered by ctx deadline (= attempt order)"""
@@ -160,6 +187,9 @@ def find_ties(tasks, obs):
             dec_t = att[i + 1]["dl"] - t.T if i + 1 < len(att) else obs.G.get(k, dict(t=None))["t"]
             if dec_t == h["dl"] or (he and he["c"] == 1 and he["t"] == h["dl"]):
                 trig.setdefault(h["dl"], []).append(("DL", k, h["n"]))
+    for q in obs.PC:
+        if q["k"] < 0:   # a cancellation by the script is an independent timed action (one by a handler is part of that handler's return)
+            trig.setdefault(q["t"], []).append(("PC",))
     hd, other = set(), []
     for t, l in trig.items():
         if len(l) < 2:
@@ -173,7 +203,7 @@ def find_ties(tasks, obs):
 
 # order of the event bag of one instant (the driver applies the first enabled one): dispatcher decisions,
 # sends, pickups, enqueues, then handler starts/returns in the order of the log, then Get2 reads
-RANK = dict(D=0, S=1, P=2, Q=3, H=4, R=4, U=4, G=5)
+RANK = dict(C=-1, D=0, S=1, P=2, Q=3, H=4, R=4, U=4, X=4, G=5)
 
 
 def log_to_history(tasks, obs, hd_ties):
@@ -181,10 +211,21 @@ def log_to_history(tasks, obs, hd_ties):
     evs = []  # (t, rank, sub, token)
     hs_order = sorted((h["idx"], k, h["n"]) for k in obs.HS for h in obs.HS[k])
     seq_of = {(k, n): i for i, (_, k, n) in enumerate(hs_order)}
+    hs_times = sorted(h["t"] for k in obs.HS for h in obs.HS[k])
+    import bisect
+    lo_of = lambda t: bisect.bisect_left(hs_times, t)   # handler starts stamped strictly earlier
 
     def add(t, kind, sub, rest):
         evs.append((t, RANK[kind], sub, "%d:%s:%s" % (t, kind, rest)))
 
+    q = obs.cancel()
+    for pc in obs.PC:
+        if pc["k"] < 0:
+            add(pc["t"], "C", 0, "0")
+        else:   # by a handler about to return: right before that return
+            att = obs.attempts(pc["k"])
+            a = [i for i, h in enumerate(att) if h["n"] == pc["n"]][0] + 1
+            add(pc["t"], "X", pc["idx"], "%d:%d" % (pc["k"], a))
     for k, t in enumerate(tasks):
         add(obs.S[k]["t"], "S", k, "%d" % k)
         if k in obs.G:
@@ -200,10 +241,12 @@ def log_to_history(tasks, obs, hd_ties):
             he = obs.HE[(k, h["n"])]
             if i == 0:
                 add(c, "P", k, "%d" % k)
-            add(c, "Q", seq_of[(k, h["n"])], "%d:%d:%d" % (k, a, seq_of[(k, h["n"])]))
+            add(c, "Q", seq_of[(k, h["n"])], "%d:%d:%d:%d" % (k, a, seq_of[(k, h["n"])], lo_of(h["t"])))
             add(h["t"], "H", h["idx"], "%d:%d" % (k, a))
             tie = (k, h["n"]) in hd_ties
-            if he["t"] < h["dl"]:
+            if q and q["idx"] < he["idx"]:
+                saw = "1"   # the parent context was cancelled before this return: ctx1 is done
+            elif he["t"] < h["dl"]:
                 saw = "0"
             elif he["t"] > h["dl"] or he["c"] == 1:
                 saw = "1"
@@ -217,7 +260,9 @@ def log_to_history(tasks, obs, hd_ties):
                 dec_t = obs.G[k]["t"]
             else:
                 continue
-            if dec_t < h["dl"]:
+            if q and q["t"] <= dec_t and q["t"] <= h["dl"]:
+                via = "0"   # decided after the cancellation: ctx1.Done() is ready (doneChan, if also ready, carries the same pair)
+            elif dec_t < h["dl"]:
                 via = "1"
             elif dec_t == h["dl"] and tie and saw == "?":
                 via = "?"
@@ -330,7 +375,11 @@ def model_info(model_out):
 
 # ---------------------------------------------------------------- monitors (raw log, no model)
 def monitor_c07(tasks, obs):
+    """C07 restated on the raw log.  "Timed out" is read as "the attempt's context was done": by its own deadline
+    T after its creation or, for a pool built with WithContextBuilder, by the cancellation of the dispatchers'
+    parent context (PC record; the code reports context.DeadlineExceeded in both cases)."""
     out = []
+    q = obs.cancel()
     for k, t in enumerate(tasks):
         if k not in obs.G:
             continue
@@ -358,26 +407,32 @@ def monitor_c07(tasks, obs):
             h, nx = att[i], att[i + 1]
             he = obs.HE[(k, h["n"])]
             created = nx["dl"] - t.T
+            done = obs.done_at(h)
             failed = he["t"] <= created and he["e"] != "nil"
-            timed_out = created >= h["dl"]
+            timed_out = created >= done
+            if timed_out and q and done == q["t"] < h["dl"] and created == done and nx["idx"] < q["idx"]:
+                timed_out = False   # the next attempt's handler was already running when the parent was cancelled
             if not (failed or timed_out) or nx["t"] < created:
-                out.append(("attempt-order", "task %d: attempt %d created at %d although attempt %d (deadline %d, returned (%s,%s) at %d) had neither failed nor timed out"
-                            % (k, i + 2, created, i + 1, h["dl"], he["v"], he["e"], he["t"])))
-            if he["t"] < h["dl"] and he["e"] == "nil" and he["t"] <= created:
-                out.append(("attempt-after-success", "task %d: attempt %d returned (%s,nil) at %d within its deadline %d, yet attempt %d was made"
-                            % (k, i + 1, he["v"], he["t"], h["dl"], i + 2)))
+                out.append(("attempt-order", "task %d: attempt %d created at %d although attempt %d (context done at %d, returned (%s,%s) at %d) had neither failed nor timed out"
+                            % (k, i + 2, created, i + 1, done, he["v"], he["e"], he["t"])))
+            if he["t"] < done and he["e"] == "nil" and he["t"] <= created:
+                out.append(("attempt-after-success", "task %d: attempt %d returned (%s,nil) at %d before its context was done (%d), yet attempt %d was made"
+                            % (k, i + 1, he["v"], he["t"], done, i + 2)))
         # Get2 pair = first attempt that finished within T without error, else the last attempt's outcome
         last = att[-1]
         he = obs.HE[(k, last["n"])]
-        if he["t"] < last["dl"]:
+        done = obs.done_at(last)
+        if he["t"] < done:
             allowed = {(he["v"], he["e"])}
-        elif he["t"] == last["dl"] and he["c"] == 0:
+        elif he["t"] == done and done == last["dl"] and he["c"] == 0:
             allowed = {(he["v"], he["e"]), ("nil", "DE")}
+        elif he["t"] == done and done < last["dl"] and he["idx"] < q["idx"]:
+            allowed = {(he["v"], he["e"]), ("nil", "DE")}   # returned at the instant of the cancellation, logged before it
         else:
             allowed = {("nil", "DE")}
         if (g["v"], g["e"]) not in allowed:
-            out.append(("get2-pair", "task %d: Get2 = (%s,%s) but its last attempt %d (deadline %d) returned (%s,%s) at %d: want one of %s"
-                        % (k, g["v"], g["e"], len(att), last["dl"], he["v"], he["e"], he["t"], sorted(allowed))))
+            out.append(("get2-pair", "task %d: Get2 = (%s,%s) but its last attempt %d (context done at %d) returned (%s,%s) at %d: want one of %s"
+                        % (k, g["v"], g["e"], len(att), done, he["v"], he["e"], he["t"], sorted(allowed))))
         if g["e"] != "nil" and len(att) != t.R:
             out.append(("early-give-up", "task %d: final error %s after %d attempt(s), R=%d" % (k, g["e"], len(att), t.R)))
         if gg and (gg["v"], gg["e"]) != (g["v"], g["e"]):
@@ -525,8 +580,45 @@ def gen_beh(rng, T, style):
     return (dur, hon, val, err)
 
 
+def gen_pcancel(rng):
+    """pool built with WithContextBuilder (one shared cancellable parent for all dispatchers); the parent is
+    cancelled by the script (before the first Send / during the first attempt / anywhere / never) or by one handler
+    right before it returns"""
+    N = rng.choice([1, 1, 2, 2, 3])
+    tasks = TaskList()
+    now = 0
+    nt = rng.range(1, 5)
+    for i in range(nt):
+        T = rng.choice([1, 1, 2, 3]) * MS + 16 * rng.below(200) + 2
+        R = rng.choice([1, 2, 2, 3, 3, 4])
+        behs = [gen_beh(rng, T, rng.choice(["mixed", "mixed", "prompt"])) for _ in range(R)]
+        tasks.append(Task(now, T, R, rng.chance(1, 5), rng.chance(5, 6), behs))
+        gap = rng.choice([16, T // 4, T // 2, T, 2 * T])
+        now += jit(rng, gap) or 16
+    mode = rng.below(10)
+    t0 = tasks[0]
+    if mode < 3:      # one handler cancels (a failing / succeeding / timing-out attempt alike)
+        t = rng.choice(tasks)
+        i = rng.below(len(t.behs))
+        t.cancels[i] = True
+        tasks.pc = -1
+    elif mode < 4:    # before anything is sent: every attempt's context is done at creation
+        tasks.pc = 0
+        for t in tasks:
+            t.send += 32
+    elif mode < 7:    # during the first attempt of the first task
+        tasks.pc = jit(rng, rng.range(1, max(2, min(t0.T, t0.behs[0][0]) - 1))) + 8
+    elif mode < 9:    # anywhere
+        tasks.pc = jit(rng, rng.range(0, now + 3 * t0.T)) + 8
+    else:             # never: only the builder is used
+        tasks.pc = -1
+    return N, tasks
+
+
 def gen_script(rng, kind):
-    """kind: retry | burst | ties | prompt | stubborn"""
+    """kind: retry | burst | ties | prompt | stubborn | pcancel"""
+    if kind == "pcancel":
+        return gen_pcancel(rng)
     N = rng.choice([1, 1, 2, 2, 3, 4])
     tasks = []
     now = 0
